@@ -74,8 +74,54 @@ Section Spec.
     | Replace kvs true => (D, of_list kvs P)        (* failed part-way: the KVs seen so far are applied *)
     | IterUpd tr => fold_left a_pu_visit (map (fun x => (fst (fst x), snd x)) tr) (D, P)
     | IterDel tr => fold_left a_pd_visit tr (D, P)
+    (* IterBatched: the items applyFn reported as applied (the first `applied` of each batch shown) *)
+    | IterBatchUpd calls => fold_left a_pu_visit (map (fun kv => (fst kv, AUpd)) (applied_of calls)) (D, P)
+    | IterBatchDel calls => fold_left a_pd_visit (map (fun kv => (fst kv, AUpd)) (applied_of calls)) (D, P)
+    | DesSetMany kvs => (of_list kvs D, P)
     end.
   Definition a_run (ops : list (op V)) : amap V * amap V := fold_left a_step ops ([], []).
+
+  (* ---- CachingMap: D, the tracker's belief P, the real dataplane map Rl, cacheLoaded, and whether the
+     cache is coherent (loaded and not bypassed since) ---- *)
+  (* raw tracker operations that change the Dataplane view without touching the real map *)
+  Definition touches_dp (o : op V) : bool :=
+    match o with DesSet _ _ | DesDel _ | DesDelAll | DesSetMany _ => false | _ => true end.
+  Record astate := AS { a_D : amap V; a_P : amap V; a_R : amap V; a_loaded : bool; a_coh : bool }.
+  Definition a_load (fail : bool) (a : astate) : astate * Z :=
+    if fail then (a, 1%Z) else (AS (a_D a) (a_R a) (a_R a) true true, 0%Z).
+  Definition a_maybe_load (fail : bool) (a : astate) : astate * Z :=
+    if a_loaded a then (a, 0%Z) else a_load fail a.
+  Definition a_upd_visit (ae : astate * Z) (x : N * V * bool) : astate * Z :=
+    let '(a, e) := ae in let k := fst (fst x) in
+    match pending_update (get (a_D a)) (get (a_P a)) k with
+    | None => ae
+    | Some d => if snd x then (AS (a_D a) (set k d (a_P a)) (set k d (a_R a)) (a_loaded a) (a_coh a), e)
+                else (a, (e + 1)%Z)          (* the write failed: the key must stay pending *)
+    end.
+  Definition a_del_visit (ae : astate * Z) (x : N * bool) : astate * Z :=
+    let '(a, e) := ae in let k := fst x in
+    match pending_del (get (a_D a)) (get (a_P a)) k with
+    | None => ae
+    | Some _ => if snd x then (AS (a_D a) (del k (a_P a)) (del k (a_R a)) (a_loaded a) (a_coh a), e)
+                else (a, (e + 1)%Z)
+    end.
+  Definition a_upd (lf : bool) (tr : list (N * V * bool)) (a : astate) : astate * Z :=
+    let '(a1, e) := a_maybe_load lf a in if Z.eqb e 0 then fold_left a_upd_visit tr (a1, 0%Z) else (a1, e).
+  Definition a_del (lf : bool) (tr : list (N * bool)) (a : astate) : astate * Z :=
+    let '(a1, e) := a_maybe_load lf a in if Z.eqb e 0 then fold_left a_del_visit tr (a1, 0%Z) else (a1, e).
+  Definition a_cstep (a : astate) (o : cop V) : astate * Z :=
+    match o with
+    | COp o => let DP := a_step (a_D a, a_P a) o in
+               (AS (fst DP) (snd DP) (a_R a) (a_loaded a) (a_coh a && negb (touches_dp o)), 0%Z)
+    | ExtSet k v => (AS (a_D a) (a_P a) (set k v (a_R a)) (a_loaded a) false, 0%Z)
+    | ExtDel k => (AS (a_D a) (a_P a) (del k (a_R a)) (a_loaded a) false, 0%Z)
+    | CLoad fail => a_load fail a
+    | CUpd lf tr => a_upd lf tr a
+    | CDel lf tr => a_del lf tr a
+    | CAll lf trd tru => let '(a1, e1) := a_del lf trd a in let '(a2, e2) := a_upd lf tru a1 in
+                         (a2, ((if Z.eqb e1 0 then 0 else 1) + (if Z.eqb e2 0 then 0 else 1))%Z)
+    end.
+  Definition as0 : astate := AS [] [] [] false false.
 
   (* ---- the statement about one tracker state, in terms of its four views ---- *)
   (* views as lookup functions + Len()s *)
@@ -89,6 +135,7 @@ Section Spec.
     (forall k, v_pd w k = pending_del (v_des w) (v_dp w) k).
 End Spec.
 
+Arguments AS {V}. Arguments a_D {V}. Arguments a_P {V}. Arguments a_R {V}. Arguments a_loaded {V}. Arguments a_coh {V}.
 Arguments Views {V}. Arguments v_des {V}. Arguments v_dp {V}. Arguments v_pu {V}. Arguments v_pd {V}.
 
 (* ---------- boolean oracle over the implementation's dumps (V = N) ---------- *)
@@ -133,31 +180,59 @@ Definition ok_iter_del (prev_pd : list N) (tr : list (N * act)) : bool :=
   (existsb (fun x => match snd x with AStop => true | _ => false end) tr
    || forallb (fun k => existsb (fun x => N.eqb (fst x) k) tr) prev_pd).
 
-Fixpoint ok_trace_from (kd : kind) (univ : list N) (DP : amap N * amap N) (prev_pu : list (N * N)) (prev_pd : list N)
-         (ops : list (op N)) (outs : list obs) : bool :=
+(* equality of two maps given as lists with unique keys *)
+Definition map_eqb (a b : list (N * N)) : bool :=
+  forallb (fun p => on_eqb (get b (fst p)) (Some (snd p))) a && forallb (fun p => on_eqb (get a (fst p)) (Some (snd p))) b.
+
+(* CachingMap part of an observation: the real map is what the operations made of it; the number of errors
+   is the number of failed calls; a coherent cache's Dataplane view is the real map (coherent = loaded and not
+   bypassed by out-of-band writes since); after an ApplyAllChanges without error on a coherent cache the real map equals the desired map and nothing is pending. *)
+Definition ok_cache (a : astate N) (e : Z) (o : cop N) (ob : obs) : bool :=
+  nodup_keysb (keys (o_real ob)) && map_eqb (o_real ob) (a_R a) && Z.eqb (o_nerr ob) e &&
+  (if a_coh a then map_eqb (o_dp ob) (o_real ob) else true) &&
+  (match o with
+   | CAll _ _ _ => if a_coh a && Z.eqb (o_nerr ob) 0
+                   then map_eqb (o_real ob) (o_des ob) && Nat.eqb (length (o_pu ob)) 0 && Nat.eqb (length (o_pd ob)) 0
+                   else true
+   | _ => true
+   end).
+
+(* IterBatched: every item shown was pending with that value; an applied count never exceeds the batch *)
+Definition ok_batch_upd (prev_pu : list (N * N)) (calls : list (list (N * N) * (nat * bool))) : bool :=
+  forallb (fun c => forallb (fun kv => on_eqb (get prev_pu (fst kv)) (Some (snd kv))) (fst c)) calls &&
+  nodup_keysb (keys (applied_of calls)).
+Definition ok_batch_del (prev_pd : list N) (calls : list (list (N * N) * (nat * bool))) : bool :=
+  forallb (fun c => forallb (fun kv => existsb (N.eqb (fst kv)) prev_pd) (fst c)) calls &&
+  nodup_keysb (keys (applied_of calls)).
+
+Fixpoint ok_trace_from (kd : kind) (univ : list N) (a : astate N) (prev_pu : list (N * N)) (prev_pd : list N)
+         (ops : list (cop N)) (outs : list obs) : bool :=
   match ops, outs with
   | [], [] => true
   | o :: ops', ob :: outs' =>
-      let DP' := a_step N (veq_of kd) DP o in
+      let '(a', e) := a_cstep N (veq_of kd) a o in
       (match o with
-       | IterUpd tr => ok_iter_upd prev_pu tr
-       | IterDel tr => ok_iter_del prev_pd tr
+       | COp (IterUpd tr) => ok_iter_upd prev_pu tr
+       | COp (IterDel tr) => ok_iter_del prev_pd tr
+       | COp (IterBatchUpd calls) => ok_batch_upd prev_pu calls
+       | COp (IterBatchDel calls) => ok_batch_del prev_pd calls
        | _ => true
        end) &&
-      ok_obs kd univ (fst DP') (snd DP') ob &&
-      ok_trace_from kd univ DP' (o_pu ob) (o_pd ob) ops' outs'
+      ok_obs kd univ (a_D a') (a_P a') ob &&
+      ok_cache a' e o ob &&
+      ok_trace_from kd univ a' (o_pu ob) (o_pd ob) ops' outs'
   | _, _ => false
   end.
 
-Definition ok_trace (kd : kind) (univ : list N) (ops : list (op N)) (outs : list obs) : bool :=
-  ok_trace_from kd univ ([], []) [] [] ops outs.
+Definition ok_trace (kd : kind) (univ : list N) (ops : list (cop N)) (outs : list obs) : bool :=
+  ok_trace_from kd univ (as0 N) [] [] ops outs.
 
 (* one correspondence case, as written by the Go harness *)
-Record case := { c_kind : kind; c_univ : list N; c_ops : list (op N); c_outs : list obs }.
+Record case := { c_kind : kind; c_univ : list N; c_ops : list (cop N); c_outs : list obs }.
 
-(* The model is compared as pinned (fixed=false) and with the repair of
+(* The model is compared as pinned before the repair (fixed=false) and with the repair of
    fixes/C18-replace-iter-duplicate-key.patch (fixed=true): the implementation must be one of them. *)
 Definition check_case (c : case) : bool * bool :=
-  (obsl_eqb (run_obs false (c_kind c) (c_univ c) (st0 N) (c_ops c)) (c_outs c)
-   || obsl_eqb (run_obs true (c_kind c) (c_univ c) (st0 N) (c_ops c)) (c_outs c),
+  (obsl_eqb (run_obs false (c_kind c) (c_univ c) (cst0 N) (c_ops c)) (c_outs c)
+   || obsl_eqb (run_obs true (c_kind c) (c_univ c) (cst0 N) (c_ops c)) (c_outs c),
    ok_trace (c_kind c) (c_univ c) (c_ops c) (c_outs c)).
